@@ -998,14 +998,20 @@ func (rw *regWorld) prepare(op string) func() {
 	case "set":
 		fl, data := rw.local(f[1]), limitList(atoi(f[2]), 1, 2)
 		return func() { fl.SetData(fnLimit, data) }
-	case "entrm":
+	case "entrm", "entadd":
 		p, e := f[1], uint(atoi(f[2]))
 		pe := w.Peers[p]
 		st := model.NetworkManagementStateChangeTypeRemoved
+		ents := []world.EntSpec{{Addr: entAddr(e), Type: model.EntityTypeTypeCEM}}
+		if f[0] == "entadd" {
+			// (also for an entity that is known: it is announced again, its feature objects are replaced)
+			st = model.NetworkManagementStateChangeTypeAdded
+			ents = []world.EntSpec{clientEntity(entAddr(e))}
+		}
 		cmd := model.CmdType{
 			Function:                            util.Ptr(model.FunctionTypeNodeManagementDetailedDiscoveryData),
 			Filter:                              []model.FilterType{*model.NewFilterTypePartial()},
-			NodeManagementDetailedDiscoveryData: pe.DiscoveryData([]world.EntSpec{{Addr: entAddr(e), Type: model.EntityTypeTypeCEM}}, false, &st),
+			NodeManagementDetailedDiscoveryData: pe.DiscoveryData(ents, false, &st),
 		}
 		d := pe.Datagram(pe.NM(), world.LocalNM(), model.CmdClassifierTypeNotify, false, nil, cmd)
 		return func() { pe.Deliver(d) }
